@@ -358,7 +358,32 @@ pub fn generate(seed: u64, tier: &str, property: &str) -> RegScenario {
     let mut cloned = false;
     for _ in 0..n_more {
         let roll = rng.below(100);
-        if roll < 4 && !h.g.world.comps.is_empty() && !use_disk {
+        let prefixed: Vec<usize> = (0..n).filter(|i| h.g.cfg.prefixes.iter().any(|p| h.name(*i).starts_with(p.as_str()))).collect();
+        if roll >= 96 && !prefixed.is_empty() && !use_disk {
+            // a template that takes over a short name: the exact-name twin of a prefixed template
+            // or the same base name under the other prefix. Includes, parents and component
+            // providers that were reached through the prefix must now resolve exactly as in a
+            // fresh instance, whichever twin was registered first.
+            let i = rng.pick(&prefixed);
+            let full = h.name(i);
+            let (pi, short) = h.g.cfg.prefixes.iter().enumerate().find_map(|(k, p)| full.strip_prefix(p.as_str()).map(|s| (k, s.to_string()))).unwrap();
+            let name = if h.g.cfg.prefixes.len() > 1 && rng.chance(1, 2) { format!("{}{}", h.g.cfg.prefixes[(pi + 1) % h.g.cfg.prefixes.len()], short) } else { short };
+            // same structure as the original (blocks, extends, components stay valid) + a marker;
+            // component definitions are dropped (a second provider at another priority is the
+            // component-twin operation's job)
+            let mut body = h.current[i].clone();
+            for ci in h.g.world.info[i].components.clone() {
+                let cname = h.g.world.comps[ci].name.clone();
+                if let Some(def) = crate::gen::extract_component_source(&body, &cname, &h.g.cfg.delims) {
+                    body = body.replace(&def, "");
+                }
+            }
+            body.push_str("TWIN");
+            h.push(Op::AddRaw { name: name.clone(), source: body }, Some("template-twin"), true);
+            if rng.chance(1, 3) {
+                h.push(Op::AddRaw { name, source: "twin replaced".to_string() }, Some("template-twin"), true);
+            }
+        } else if roll < 4 && !h.g.world.comps.is_empty() && !use_disk {
             // a second provider of an existing component at another fallback priority (valid:
             // priorities differ), later turned into plain text again (the provider disappears):
             // which definition wins must depend on priority only, never on the order of adds
@@ -617,6 +642,13 @@ pub fn generate(seed: u64, tier: &str, property: &str) -> RegScenario {
     }
     names.push("nope.html".to_string());
     names.push("zz_twin.html".to_string());
+    for op in &h.ops {
+        if let Op::AddRaw { name, .. } = op {
+            if !names.contains(name) {
+                names.push(name.clone());
+            }
+        }
+    }
     for k in 0..3 {
         names.push(format!("zz_new{}.html", k));
     }
